@@ -5,20 +5,24 @@
 package zkmod
 
 //@ func (*Proof).IsValid
+//@   use bits
 //@   nopanic[C05]
 //@   inline
 //@   requires public.N != nil
 
 //@ func (*Response).Verify
+//@   use bits
 //@   nopanic[C05]
 //@   inline
 
 //@ func (*Proof).Verify
+//@   use bits
 //@   nopanic[C05]
 //@   modifies hstate(hash)
 //@   requires public.N != nil && hash != nil && hash.h != nil
 
 //@ func challenge
+//@   use bits
 //@   nopanic[C05]
 //@   inline
 //@   requires hash != nil && hash.h != nil
